@@ -147,7 +147,8 @@ theorem pickLock_keep {s s' : St} {o : PickOutcome} {saved : Nat} {ps : List Pic
     simp only [Except.ok.injEq, Prod.mk.injEq] at h
     obtain ⟨rfl, _, _⟩ := h
     unfold reissue at hre
-    have k1 : Keep { s with locked0 := rest } s1 := reissueGo_keep _ hre
+    have k1 := reissueGo_keep _ hre
+    unfold reissued
     exact ⟨k1.frac, k1.wts, k1.rows, k1.n, k1.trajNum, k1.cstep, k1.tsteps, k1.workers, k1.toinitiate, k1.trajsPerm⟩
 
 /-- **`prep_md_items`** leaves tables, data file and counters alone, and lists the path numbers it
